@@ -767,7 +767,8 @@ class LinesearchNewton:
                     log.info('update accepted at relaxation', round(relax, 5))
                     relax = min(relax * scale, 1)
                     break
-                assert scale < 1
+                if not scale < 1: # e.g. because of a non-finite jacobian
+                    raise SolverError('line search failed')
                 relax *= scale
                 if relax <= self.failrelax:
                     raise SolverError('stuck in local minimum')
